@@ -16,6 +16,16 @@ WORKERS = int(os.environ.get("VERIF_WORKERS", "16"))
 
 # property -> units. A unit is (binary, world, share of workers, quick runs, thorough runs)
 PROPS = {
+    "C01": dict(level="exploration", units=[("agg_theta", "c01", 16, 8000, 400000)],
+                rule="a run = one seeded history over a pool of up to 4 update theta sketches (typed updates of every overload, batches, permuted and redelivered batches, trim/reset/compact/copy/assign/serialize) with one configuration (lg_k, resize factor, p, seed); the retained entries are compared with the independent hash-threshold model after every step; non-trivial = at least one fault (reorder/dup) or compact/copy/serde step; distinct = distinct plan hash"),
+    "C02": dict(level="exploration", units=[("agg_theta", "c02", 16, 6000, 300000)],
+                rule="a run = 2-6 input sketches (exact/estimating/empty/zero-retained) delivered in scheduler order, multiplicity and physical form (update, compact ordered/unordered, deserialized v3/v4, wrapped v3/v4, lvalue/rvalue) to a stateful union, intersection and a-not-b with interleaved get_result/reset; the result is compared with the set-algebra model after every delivery; non-trivial = at least one delivery; distinct = distinct plan hash"),
+    "C03": dict(level="exploration", units=[("agg_hll", "c03", 16, 1600, 60000)],
+                rule="a run = one logical stream fed to 8 HLL sketch variants (HLL_4/6/8 lazily grown, started full-size, permuted order, redelivered batches) with type conversions and serialize/deserialize mid-history; every variant's coupon set or register array (HLL_8 updatable image of a copy) is compared with the independent coupon model after every step; non-trivial = reorder/dup fault or conversion; distinct = distinct plan hash"),
+    "C04": dict(level="exploration", units=[("agg_hll", "c04", 16, 4000, 150000)],
+                rule="a run = 2-6 input sketches (lg_k 4..12, three types, list/set/HLL mode, empty, started full-size) and raw items delivered to one hll_union in scheduler order and multiplicity, lvalue/rvalue, with get_result/estimate reads and resets interleaved; result lg_k and registers/coupons compared with the model after every delivery; non-trivial = at least one sketch delivery; distinct = distinct plan hash"),
+    "C05": dict(level="exploration", units=[("agg_cpc", "c05", 16, 4000, 150000)],
+                rule="a run = up to 4 CPC sketches (lg_k 4..10) driven across every flavor boundary with typed updates, serialize/deserialize at every stage (restored sketch continues), a cpc_union fed sketches of unequal lg_k in scheduler order with duplicates and interleaved get_result; coupon count vs independent (row,col) model, re-offer probe, validate(), equal-(lg_k,C) estimate identity; non-trivial = union delivery, restore or probe; distinct = distinct plan hash"),
     "C09": dict(level="exploration", units=[("store_d", "c09d", 6, 2400, 60000), ("store_q", "c09q", 5, 2000, 50000), ("store_m", "c09m", 5, 2000, 50000)],
                 rule="a run = one seeded history (feed/merge/reset, checkpoints through either API with header/chunk/trailing/torn/lost faults, crashes with recovery from the log) over one family and configuration; non-trivial = executed at least one checkpoint round-trip or fault; distinct = distinct plan hash"),
     "C11": dict(level="fault_enumeration", units=[("store_d", "c11d", 6, 360, 9000), ("store_q", "c11q", 5, 300, 7500), ("store_m", "c11m", 5, 300, 7500)],
